@@ -135,6 +135,21 @@ func (e *Engine) Explore(fn *ssa.Function, unwind int) *HarnessResult {
 	active := 0
 	cond := sync.NewCond(&mu)
 	var wg sync.WaitGroup
+	done := make(chan struct{})
+	go func() {
+		tk := time.NewTicker(10 * time.Second)
+		defer tk.Stop()
+		for {
+			select {
+			case <-done:
+				return
+			case <-tk.C:
+				mu.Lock()
+				fmt.Fprintf(os.Stderr, "  ... %s: %d paths, queue %d, active %d, steps %d, violations %d, errors %d (%.0fs)\n", fn.Name(), res.Paths, len(queue), active, res.Steps, len(res.Violations), len(res.Errors), time.Since(t0).Seconds())
+				mu.Unlock()
+			}
+		}
+	}()
 	for w := 0; w < e.workers; w++ {
 		wg.Add(1)
 		go func(w int) {
@@ -180,7 +195,30 @@ func (e *Engine) Explore(fn *ssa.Function, unwind int) *HarnessResult {
 				active++
 				mu.Unlock()
 
+				if sol.Dead || (sol.Paths >= 1500 && transcript == "") {
+					// fresh solver process: keeps incremental state small, replaces a hung one
+					old := sol
+					ns, err := NewSolver(e.solver, "")
+					if err == nil {
+						old.Close()
+						mu.Lock()
+						res.Queries += old.Queries
+						res.SolverTime += old.Time
+						res.SolverErrors += old.Errors
+						mu.Unlock()
+						sol = ns
+					}
+				}
+				sol.Paths++
 				pr, forks, in := e.runPath(fn, prefix, sol, unwind)
+				if sol.Dead {
+					// the solver hung or died inside this path: retry once on a fresh process
+					if ns, err := NewSolver(e.solver, ""); err == nil {
+						sol.Close()
+						sol = ns
+						pr, forks, in = e.runPath(fn, prefix, sol, unwind)
+					}
+				}
 
 				mu.Lock()
 				active--
@@ -232,6 +270,7 @@ func (e *Engine) Explore(fn *ssa.Function, unwind int) *HarnessResult {
 		}(w)
 	}
 	wg.Wait()
+	close(done)
 	res.Wall = time.Since(t0)
 	return res
 }
@@ -263,10 +302,10 @@ func (e *Engine) runPath(fn *ssa.Function, prefix []int, sol *Solver, unwind int
 			case targetPanic:
 				pr.Status = "panic"
 				pr.Msg = x.Msg
-				pr.Stack = in.stack()
-				where := "?"
-				if in.curFrame != nil {
-					where = in.curFrame.fn.String()
+				pr.Stack = in.errStack
+				where := in.errWhere
+				if where == "" {
+					where = "?"
 				}
 				if !in.expectPanic {
 					v := &Violation{Harness: in.harness, Label: "panic:" + where, Kind: "panic", Msg: x.Msg, Trace: append([]int{}, in.trace...), Stack: pr.Stack}
@@ -278,7 +317,7 @@ func (e *Engine) runPath(fn *ssa.Function, prefix []int, sol *Solver, unwind int
 				}
 			case *EngineError:
 				pr.Status = "error"
-				pr.Msg = x.Msg + " @ " + strings.Join(in.stack(), " <- ")
+				pr.Msg = x.Msg + " @ " + strings.Join(in.errStack, " <- ")
 			default:
 				pr.Status = "error"
 				pr.Msg = fmt.Sprintf("engine crash: %v @ %s", r, strings.Join(in.stack(), " <- "))
